@@ -51,6 +51,7 @@ type Contract struct {
 	AppendOldReads bool               // opt-in: append facts also link OLD(p) back to reads of the old backing array
 	ThoroughOnly  []string            // labels of obligations discharged only in the thorough tier (slow proofs); assumed in the quick tier and listed in the evidence
 	StopsLoop     []string            // like Propag, plus: after a failed call the enclosing loop does not go round again
+	CheckCalls    bool                // on a trusted contract: the body is still checked against the before/after/propagates clauses
 	Resets        []string            // ghost set variables emptied at entry (ghost assignment: at body entry and at call sites before the precondition)
 	OnlyContracts []string // if set: only these callees' contracts are used, all others are treated as uncontracted
 	Opaque  bool
@@ -347,6 +348,8 @@ func applyClause(c *Contract, kw, label, text, file string, line int) error {
 		c.ThoroughOnly = append(c.ThoroughOnly, strings.Fields(strings.ReplaceAll(text, ",", " "))...)
 	case "stops-loop":
 		c.StopsLoop = append(c.StopsLoop, strings.Fields(text)...)
+	case "check-calls":
+		c.CheckCalls = true
 	case "resets":
 		for _, n := range strings.Fields(strings.ReplaceAll(text, ",", " ")) {
 			c.Resets = append(c.Resets, n)
